@@ -398,7 +398,7 @@ def rule_E1(ctx, rep, rid='E1'):
                 rts = ret_terms(T, [0])
                 errs = [r for r in rts if r[0] == 'adt' and r[2] == 'Err']
                 oks = [r for r in rts if r[0] == 'adt' and r[2] == 'Ok']
-                ok = bool(errs) and bool(oks)
+                ok = (bool(errs) and bool(oks)) or (bool(rts) and all(r == ct for r in rts))      # the result itself is passed back
                 rep.ob(rid, '%s/send-failure-is-error' % name, ok, body.where(bi),
                        'a failed send yields Err' if ok else 'write returns %s' % [fmt(x) for x in rts])
                 continue
